@@ -13,6 +13,15 @@ from ..sessmodel import Refuse, MObj
 from . import seq as S
 from . import seq_detached
 
+
+class CarriedOn(Exception):
+    """a session that went on after a caught database error has been rolled back"""
+
+
+class DupInfo(str):
+    """description of a key conflict, with the model object that holds the key"""
+    ent = attrs = vals = other = mid = None
+
 MOD_OPS = ('new', 'set', 'setmany', 'rel', 'add', 'remove', 'clear', 'assign', 'create_in', 'del',
            'set_none', 'setpk')
 READ_OPS = ('r_attr', 'r_pk', 'r_get', 'r_exists', 'r_select', 'r_count', 'r_aggr', 'r_coll', 'r_todict', 'r_rel')
@@ -153,7 +162,9 @@ class Interp(seq_detached.DetachedMixin, S.SeqRun):
             vs = tuple(vals.get(n) for n in k)
             other = self.view.key_conflict(e.name, k, vs, but=mid)
             if other is not None:
-                return '%s(%s)=%r' % (e.name, ','.join(k), vs)
+                d = DupInfo('%s(%s)=%r' % (e.name, ','.join(k), vs))
+                d.ent, d.attrs, d.vals, d.other, d.mid = e.name, k, vs, other, mid
+                return d
         return None
 
     def _note_keys_taken(self, e, mo):
@@ -1227,6 +1238,7 @@ class Interp(seq_detached.DetachedMixin, S.SeqRun):
         self.dup_pending = None
         self.session_clean = True
         self.fault_fired_in_session = False
+        self.blind = False
         self.released_keys = set()
         self.taken_keys = set()
         opts = dict(sess.get('opts') or {})
@@ -1245,13 +1257,27 @@ class Interp(seq_detached.DetachedMixin, S.SeqRun):
                     if fo and fo[0] == si and fo[1] == oi:
                         simdb.ctx.gfaults[simdb.ctx.g + int(fo[2])] = fo[3]
                     g_before = simdb.ctx.g
+                    if self.blind and name in ('commit', 'rollback'):
+                        name = 'flush'       # a carried-on session is rolled back at its end, nowhere else
                     try:
                         self.dispatch(name, a, b, c)
+                    except S.Poisoned:
+                        if not self.carry_on_after_fault(g_before):
+                            raise
                     finally:
                         if name in MOD_OPS and simdb.ctx.g > g_before:
                             self.op_calls.append([si, oi, simdb.ctx.g - g_before])
                     self.after_op()
                 self.op_index = 'end'
+                if self.blind:
+                    # all-or-nothing: this session never committed, so nothing of it may be in the database
+                    self.cur_op_desc = 'rollback after a caught database error'
+                    rollback()
+                    self.blind = False
+                    self.discard_session_state('carried on after a fault, rolled back')
+                    self.compare_db(self.committed, 'C09', 'rolled-back-changes-visible', 'caught-error-then-rollback')
+                    self.probe('carried_on_session_rolled_back')
+                    raise CarriedOn()
                 ef = self.case.get('end_fault')
                 if ef and ef[0] == si:
                     # the database fails while the session is ending: commit and the rollbacks that follow
@@ -1278,6 +1304,8 @@ class Interp(seq_detached.DetachedMixin, S.SeqRun):
                 self.last_handles, self.last_view = dict(self.handles), self.view
             else:
                 how = 'rolled-back'
+        except CarriedOn:
+            how = 'rolled-back'
         except S.Marker:
             how = 'rolled-back'
             self.discard_session_state('body raised')
@@ -1296,6 +1324,7 @@ class Interp(seq_detached.DetachedMixin, S.SeqRun):
         finally:
             simdb.ctx.gfaults.clear()
             simdb.ctx.before_call = None
+            self.blind = False
         if self.case.get('detached') and not core.local.db2cache and self.last_handles:
             self.detached_phase(si, self.last_handles, self.last_view, how, bool(opts.get('strict')))
         self.last_handles, self.last_view = {}, None
@@ -1305,6 +1334,23 @@ class Interp(seq_detached.DetachedMixin, S.SeqRun):
                 rollback()
             except Exception:
                 pass
+
+    def carry_on_after_fault(self, g_before):
+        """case['after_fault'] == 'continue': the program catches the error of an injected database fault inside the
+        session and goes on using the session (retries, other work); in the end it rolls back.  Atomicity (C17)
+        then demands that nothing of the session is in the database.  Everything else is not judged (blind)."""
+        if self.case.get('after_fault') != 'continue':
+            return False
+        if not self.blind:
+            fired_now = any(f[0] >= g_before for f in simdb.ctx.fired)
+            if not (self.fault_fired_in_session and fired_now):
+                return False
+        cache = core.local.db2cache.get(self.db)
+        if cache is None or not cache.is_alive:
+            return False            # the failure ended the session (commit failed, connection dropped): nothing to carry on
+        self.blind = True
+        self.probe('carried_on_after_fault')
+        return True
 
     def dispatch(self, name, a, b, c):
         if name.startswith('r_') and self.knobs.get('hook_mode') in ('modify', 'create', 'link'):
@@ -1418,7 +1464,7 @@ def run_case(case, scratch, cls=None):
         'fired': fired,
         'digest': digest,
         'sig': hsh([case.get('variant'), case['sessions'], case.get('flush_policy'), case.get('knobs'),
-                    case.get('fault_op'), case.get('faults')]),
+                    case.get('fault_op'), case.get('faults'), case.get('after_fault')]),
         'nontrivial': n_mod >= 2 and run.probes.get('commit_ok', 0) + run.probes.get('session_poisoned', 0) >= 1,
         'probes': run.probes,
         'trace': run.trace if case.get('want_trace') else None,
